@@ -55,6 +55,7 @@ func vs_any[T any](f func(T) bool) bool {
 func vs_fresh(p any) bool { return true }
 func vs_modifies(p any) {}
 func vs_visited(n int, k any) bool { return false }
+func vs_done(n int) int { return 0 }
 func vs_same[T any](a, b []T) bool { return len(a) == len(b) && (len(a) == 0 || &a[0] == &b[0]) }
 func vs_has[K comparable, V any](m map[K]V, k K) bool { _, ok := m[k]; return ok }
 `
